@@ -286,7 +286,20 @@ func c05Case(w *core.Worker, i int) {
 			p := genPred(r, t, 2)
 			var set string
 			var newv func(row []*string) *string
-			switch r.Intn(3) {
+			selfRef := false
+			switch r.Intn(4) {
+			case 3:
+				// a sub-query over the table being updated: it must see the table as it was before the statement
+				q := genPred(r, t, 1)
+				cnt := 0
+				for _, row := range t.Rows {
+					if q.eval(t, row) == 1 {
+						cnt++
+					}
+				}
+				v := "n" + strconv.Itoa(cnt)
+				set, newv = fmt.Sprintf("(SELECT 'n' || COUNT(*) FROM %s x WHERE %s)", tn, q.SQL("x.")), func([]*string) *string { return core.Sp(v) }
+				selfRef = true
 			case 0:
 				v := c05Texts[r.Intn(len(c05Texts))] + "!"
 				set, newv = core.SQLStr(v), func([]*string) *string { return core.Sp(v) }
@@ -302,6 +315,9 @@ func c05Case(w *core.Worker, i int) {
 					row[ci] = newv(append([]*string{}, row...))
 					cnt++
 				}
+			}
+			if selfRef && cnt > 1 {
+				w.Count("updates_with_subquery_over_the_updated_table", 1)
 			}
 			steps = append(steps, step{fmt.Sprintf("UPDATE %s SET %s = %s WHERE %s;", tn, t.Cols[ci], set, p.SQL("")), cnt, cnt > 0, nil})
 		case 6: // multi-table UPDATE: t.c1 := u.c1 for matching ids
